@@ -379,6 +379,10 @@ func (fx *FuncCtx) fresh(t types.Type, hint string) Val {
 		if isBufferPtr(t) {
 			return fx.fresh(u.Elem(), hint)
 		}
+		if n, ok := u.Elem().(*types.Named); ok && n.Obj().Pkg() != nil && n.Obj().Pkg().Path() == "regexp" && n.Obj().Name() == "Regexp" {
+			// a regexp passed as a parameter: an unknown language
+			return VRegex{Var: "param_" + sanitizeIdent(hint), Param: true}
+		}
 		if n, ok := u.Elem().(*types.Named); ok {
 			if _, ok := n.Underlying().(*types.Struct); ok {
 				r := fx.declare(sortInt, hint)
